@@ -28,7 +28,9 @@ func (b tkBank) GetDenomMetaData(ctx context.Context, denom string) (banktypes.M
 
 type tkAccount struct{ *vAccount }
 
-func (a tkAccount) GetSequence(ctx context.Context, addr sdk.AccAddress) (uint64, error) { return 0, nil }
+func (a tkAccount) GetSequence(ctx context.Context, addr sdk.AccAddress) (uint64, error) {
+	return 0, nil
+}
 
 type tkEnv struct {
 	*vEnv
